@@ -22,6 +22,9 @@ def main():
     elif a.prop in ("C15", "C10", "C18"):
         import check_hub
         check_hub.run_check(a.prop, a.tier)
+    elif a.prop == "C16":
+        import check_text
+        check_text.run_check(a.prop, a.tier)
     elif a.prop == "C19":
         import check_avahi
         check_avahi.run_check(a.prop, a.tier)
